@@ -22,6 +22,12 @@ NA = {
 }
 
 CHECKS = {
+    "C09": {
+        "text": "Seeded deterministic simulation of HostnameTrieSet add histories: random small-scope histories by 1-4 writer clients, one add multiset replayed under 2-4 seeded schedules (order independence), and the repository's own import-time histories (1,361 + 158 + 2 domains) in list order, shuffled and as the live module-level tries; readers, live iterator tasks and faults (iterator cancellation, add() of a non-string) are interleaved by the scheduler. After every add every hostname of depth <= depth+1 over the alphabet is matched in rotating URL forms and label spellings (case, punycode, IDN), and len / iteration are compared with the minimal covering set of a set-of-label-tuples model. Sampled evidence, minimised exactly-replayable counterexamples.",
+        "note": "Trusted: the set model (20 lines), Python's idna codec for IDN labels, CPython. Hosts that are IP literals or 'localhost' are excluded by construction (documented as undefined).",
+        "design": "DESIGN.md §4 C09",
+        "technique": "deterministic simulation with fault injection: seeded add schedules (incl. same multiset under several schedules and the bundled import-time histories), set reference model, iterator-cancellation faults, ddmin-minimised replay",
+    },
     "C10": {
         "text": "Seeded deterministic simulation of TrieDict histories (1-4 writer clients, readers, live iterator tasks interleaved by a seeded scheduler; faults: key iterable failing after k tokens, unhashable token at position k, iterator cancellation) compared operation by operation and by a full key-universe sweep after every mutating event against a dict reference model. Sampled evidence over millions of short histories on tiny alphabets, not proof; failures are minimised (ddmin over the explicit event list) and replay exactly.",
         "note": "Trusted: the dict reference model (30 lines), CPython. Operations are atomic (no thread safety is documented). Only __setitem__ mutates in C10 histories.",
